@@ -226,6 +226,10 @@ func newCluster(w *simrt.World, res *Result, root string, rf int, size int64, nr
 		}
 	}
 	w.DiskFn = c.diskFn
+	w.DiskSlowFor = func(dc simrt.DiskCall) time.Duration {
+		// around the rpc deadlines (default 30 s, per-run 6..25 s): sometimes just under, sometimes well over
+		return time.Duration(2+w.Rand(fmt.Sprintf("diskslow:%s:%d", dc.Path, w.Counter("diskslow")))%58) * time.Second
+	}
 	simrt.SetNodeVarInit("replica.HoleCreatorChan", holeChanInit)
 	os.Setenv("REPLICATION_FACTOR", fmt.Sprint(rf))
 	c.ctrlN = w.AddNode("ctrl", "10.0.0.1")
@@ -609,9 +613,13 @@ func (c *cluster) diskFn(dc simrt.DiskCall) simrt.DiskVerdict {
 	}
 	delete(c.diskArms, dc.G.Node.Name)
 	if a.read {
+		if a.kind == simrt.DiskSlow {
+			c.res.stat("fault_disk_read_slow_fired", 1)
+			return simrt.DiskSlow
+		}
 		c.res.stat("fault_disk_read_eio_fired", 1)
 		return simrt.DiskEIO
 	}
-	c.res.stat(fmt.Sprintf("fault_disk_write_%s_fired", []string{"ok", "eio", "enospc", "short"}[int(a.kind)]), 1)
+	c.res.stat(fmt.Sprintf("fault_disk_write_%s_fired", []string{"ok", "eio", "enospc", "short", "slow"}[int(a.kind)]), 1)
 	return a.kind
 }
